@@ -124,6 +124,8 @@ func (x *Explorer) step(in *inst, e Event, hist []Event, check bool) {
 		out = in.n.StepFullQueue(input)
 	case e.Kind == "tick" && e.FullS:
 		out = in.n.StepFullSend(input)
+	case (e.Kind == "msg" || e.Kind == "inject") && e.FullO:
+		out = in.n.StepFullObsv(input)
 	default:
 		out = in.n.Step(input)
 	}
@@ -166,6 +168,9 @@ func (x *Explorer) step(in *inst, e Event, hist []Event, check bool) {
 	}
 	if x.Oracles["C02"] {
 		x.oracleC02(in, e, input, exp, out, pre, post, hist)
+		if out.LostLoopback > 0 {
+			x.viol("C02", "C02 own signature lost: the node signed its observation but the signature never reached its own aggregation (inbound observation queue full at that moment)", fmt.Sprintf("%d observation(s) broadcast, %d fewer arrived on the node's own observation queue once there was room", len(out.Obs), out.LostLoopback), hist)
+		}
 	}
 	if x.OnStep != nil {
 		x.OnStep(in, e, out, hist)
